@@ -12,6 +12,9 @@
 //            checked for probe calls / prompts / negotiation replies / EOF after exit, hostile clients
 //            (IAC soup, truncated SB, 0xFF runs, abrupt close, RST) checked for harmlessness and liveness.
 //   tcprpc   the same through TcpRpc (quiet mode, no telnet layer).
+//   service  session teardown through both front ends at once: many scripted sessions per case end by exit or by a
+//            command node calling Session::endSession(), then send more bytes / close / reset an exact number of
+//            loop passes later; no exception may leave the loop, the server must disconnect, others keep working.
 #include "common/vh.hpp"
 #include "c13_ref.hpp"
 
@@ -27,6 +30,10 @@
 #include <memory>
 #include <algorithm>
 #include <exception>
+#include <thread>
+#include <mutex>
+#include <condition_variable>
+#include <chrono>
 #include <sys/socket.h>
 #include <sys/types.h>
 #include <netinet/in.h>
@@ -1075,6 +1082,66 @@ void case_hostile(uint64_t, vh::Rng &rng) {
         vh::sample("{\"mode\":\"hostile\",\"script\":" + vh::jstr(w.desc.substr(0, 1200)) + "}", 1);
 }
 
+
+//! ------------------------------------------------------------------------------------------ in-loop driver
+//! Runs the loop in Mode::kForever on a helper thread and lets the scenario act once per loop iteration, from a task
+//! that is always the first of the iteration's run-next phase. Control is handed back and forth (mutex + condition
+//! variable, exactly one side runs at any time), so the scenario code stays sequential and everything is as
+//! deterministic as with one thread - but, unlike runLoop(kOnce), leaving the iteration does not drain the deferred
+//! tasks: a task queued by a task really runs one iteration later, after that iteration's descriptor events. What the
+//! scenario does in tick k reaches the server in the descriptor phase of iteration k+1.
+struct LoopRunner {
+    Loop *loop = nullptr;
+    std::mutex m;
+    std::condition_variable cv;
+    int turn = 0;               //!< 0: scenario runs, 1: loop thread runs
+    bool started = false, finished = false, dead = false, stop = false;
+    std::string ex_name, ex_what;
+    std::thread th;
+    uint64_t ticks = 0;
+
+    void give(int who) { { std::lock_guard<std::mutex> g(m); turn = who; } cv.notify_all(); }
+    void wait_turn(int who) { std::unique_lock<std::mutex> g(m); cv.wait(g, [&] { return turn == who; }); }
+
+    void driver() {             // loop thread
+        if (stop) { loop->exitLoop(); return; }
+        loop->runNext([this] { driver(); }, "c13-driver");
+        give(0);
+        wait_turn(1);
+    }
+    void thread_main() {
+        wait_turn(1);
+        try { loop->runLoop(Loop::Mode::kForever); }
+        catch (...) { ex_name = current_exception_name(); ex_what = current_exception_what(); dead = true; }
+        finished = true;
+        give(0);
+    }
+    void start(Loop *l) {
+        loop = l;
+        loop->runNext([this] { driver(); }, "c13-driver");
+        started = true;
+        th = std::thread([this] { thread_main(); });
+        give(1);
+        wait_turn(0);
+    }
+    //! let the loop finish this iteration and make the next one up to the driver task; false when the loop ended
+    bool tick() {
+        if (!started || finished) return false;
+        ++ticks;
+        give(1);
+        wait_turn(0);
+        return !finished;
+    }
+    //! ask the loop to leave (normal end of a case); safe to call twice
+    void shutdown() {
+        if (!started) return;
+        if (!finished) { stop = true; give(1); wait_turn(0); }
+        if (th.joinable()) th.join();
+        started = false;
+    }
+    ~LoopRunner() { shutdown(); }
+};
+
 //! ------------------------------------------------------------------------------------------ TCP front ends
 int pick_port() {
     int fd = ::socket(AF_INET, SOCK_STREAM, 0);
@@ -1124,8 +1191,8 @@ struct TcpWorld {
     bool aborted = false;
     std::string desc;
     vh::Sig sig;
-
     uint64_t case_idx = 0;
+    LoopRunner runner;
 
     TcpWorld(vh::Rng &r, bool t, uint64_t idx) : rng(r), telnet(t), case_idx(idx) {}
 
@@ -1164,12 +1231,13 @@ struct TcpWorld {
 
     void pump(int n) {
         for (int i = 0; i < n && !aborted; ++i) {
-            try { sh.pump(1); }
-            catch (...) {
-                vh::viol("uncaught-exception/" + current_exception_name() + "@runLoop", vh::fmt("what='%s'", current_exception_what().c_str()));
+            runner.tick();      // one loop iteration in Mode::kForever (deferred tasks are not drained early, see LoopRunner)
+            if (runner.dead) {
+                vh::viol("uncaught-exception/" + runner.ex_name + "@runLoop", vh::fmt("what='%s'; clients: %s", runner.ex_what.c_str(), desc.substr(0, 1200).c_str()));
                 aborted = true;
                 return;
             }
+            vh::counter("tcp_loop_iterations");
             for (auto &c : clients) {
                 size_t b = c.rx.size();
                 drain(c);
@@ -1458,6 +1526,7 @@ struct TcpWorld {
 
     void run() {
         if (!start()) { vh::counter("tcp_server_start_failed"); fprintf(stderr, "VH-FATAL: c13-tcp-server-start-failed\n"); abort(); }
+        runner.start(sh.loop);
         size_t ncl = 1 + rng.below(3);
         clients.resize(ncl);
         for (size_t i = 0; i < ncl && !aborted; ++i) {
@@ -1546,7 +1615,8 @@ struct TcpWorld {
 
     ~TcpWorld() {
         for (auto &c : clients) if (c.fd >= 0) ::close(c.fd);
-        if (aborted) {
+        runner.shutdown();
+        if (aborted || runner.dead) {
             // an exception went through the loop: internal callback-depth counters are off, destructors would assert. Leak.
             sh.term = nullptr; sh.loop = nullptr;
             return;
@@ -1568,6 +1638,419 @@ void case_tcp(uint64_t idx, vh::Rng &rng, bool telnet) {
         vh::sample("{\"mode\":" + vh::jstr(telnet ? "telnet" : "tcprpc") + ",\"clients\":" + vh::jstr(w.desc.substr(0, 1200)) + "}", 1);
 }
 
+
+//! ------------------------------------------------------------------------------------------ service mode
+//! Session teardown through the real front ends. One case = one loop with a Terminal, a Telnetd AND a TcpRpc, and
+//! 8-24 scripted client sessions (up to 4 connected at a time). A session ends by `exit` / `quit` or by a command
+//! node that calls Session::endSession(); what the client does next is placed an exact number of loop passes later
+//! (same write, separate write without a pass in between, 1, 2 or 3 passes): more bytes (text, telnet commands,
+//! a second exit, single bytes streamed one per pass), close, half-close, RST, or nothing. The harness is the only
+//! thread, so "the pass right after the one that ran exit" is hit on purpose instead of by timing luck.
+struct SvcStep {
+    enum Kind { WRITE, CLOSE, SHUT_WR, RST, WAIT } kind;
+    std::string bytes;
+    int passes;
+    bool is_end;        //!< the write that carries exit / the ending command
+    bool is_after;      //!< belongs to what the client does after the ending write
+};
+
+struct SvcClient {
+    int fd = -1;
+    bool telnet = true;
+    std::string rx;
+    bool eof = false, reset = false;
+    std::vector<SvcStep> steps;
+    size_t next = 0;
+    int wait = 0;
+    int ending = 0;                 //!< 0 bystander, 1 exit/quit, 2 command node
+    int passes_since_end = -1;      //!< loop passes since the ending write was made
+    bool first_after_done = false;
+    bool due = false;               //!< its wait ran out in the pass just made: the next step goes out before anything else happens
+    bool closed_by_us = false, shut_wr = false;
+    std::vector<Args> expect;       //!< probe invocations required before the ending write
+    std::string script;
+    bool done() const { return next >= steps.size(); }
+};
+
+struct ServiceWorld {
+    Shell sh;
+    vh::Rng &rng;
+    uint64_t case_idx;
+    Telnetd *telnetd = nullptr;
+    TcpRpc *rpc = nullptr;
+    int port_t = -1, port_r = -1;
+    std::string path_t, path_r;
+    std::vector<SvcClient> clients;     //!< all sessions of the case, live ones have fd >= 0 or pending steps
+    bool aborted = false;
+    std::string desc;
+    vh::Sig sig;
+    unsigned serial = 0;
+    uint64_t node_end_calls = 0;
+    LoopRunner runner;
+
+    ServiceWorld(vh::Rng &r, uint64_t idx) : rng(r), case_idx(idx) {}
+
+    void log(const std::string &s) { desc += s; desc += ' '; if (desc.size() < 5800) vh::st().case_desc = desc; }
+
+    bool start() {
+        sh.build_fixed_tree();
+        sh.probe_reply = true;
+        // a command node that ends its own session, reachable as /bye and (from the root) bye
+        NodeToken bye = sh.term->createFuncNode([this](const Session &s, const Args &) {
+            ++node_end_calls;
+            s.send("bye-node\r\n");
+            s.endSession();
+        }, "ends the session");
+        sh.term->mountNode(sh.term->rootNode(), bye, "bye");
+        long every = vh::st().args.num("tcp-every", 8);
+        if (every > 0 && case_idx % (uint64_t)every == 0) {
+            for (int attempt = 0; attempt < 20; ++attempt) {
+                port_t = pick_port(); port_r = pick_port();
+                if (port_t < 0 || port_r < 0 || port_t == port_r) continue;
+                telnetd = new Telnetd(sh.loop, sh.term);
+                rpc = new TcpRpc(sh.loop, sh.term);
+                if (telnetd->initialize("127.0.0.1:" + std::to_string(port_t)) && rpc->initialize("127.0.0.1:" + std::to_string(port_r)) &&
+                    telnetd->start() && rpc->start()) { vh::counter("service_cases_over_loopback_tcp"); return true; }
+                telnetd->cleanup(); rpc->cleanup();
+                delete telnetd; telnetd = nullptr;
+                delete rpc; rpc = nullptr;
+            }
+            vh::counter("tcp_loopback_unavailable_fell_back_to_unix");
+        }
+        telnetd = new Telnetd(sh.loop, sh.term);
+        rpc = new TcpRpc(sh.loop, sh.term);
+        port_t = port_r = -1;
+        std::string dir = vh::st().args.out.empty() ? std::string("/var/tmp") : vh::st().args.out;
+        std::string base = dir + "/c13s_" + std::to_string((long)getpid());
+        if (base.size() + 3 >= sizeof(((struct sockaddr_un *)0)->sun_path)) base = "/var/tmp/c13s_" + std::to_string((long)getpid());
+        path_t = base + ".t"; path_r = base + ".r";
+        if (telnetd->initialize(path_t) && rpc->initialize(path_r) && telnetd->start() && rpc->start()) { vh::counter("service_cases_over_unix_socket"); return true; }
+        return false;
+    }
+
+    int connect_to(bool telnet) {
+        int port = telnet ? port_t : port_r;
+        if (port < 0) {
+            const std::string &path = telnet ? path_t : path_r;
+            int ufd = ::socket(AF_UNIX, SOCK_STREAM, 0);
+            if (ufd < 0) return -1;
+            struct sockaddr_un u;
+            memset(&u, 0, sizeof u);
+            u.sun_family = AF_UNIX;
+            memcpy(u.sun_path, path.data(), path.size());
+            if (::connect(ufd, (struct sockaddr *)&u, sizeof u) != 0) { ::close(ufd); return -1; }
+            return ufd;
+        }
+        int fd = ::socket(AF_INET, SOCK_STREAM, 0);
+        if (fd < 0) return -1;
+        struct sockaddr_in a;
+        memset(&a, 0, sizeof a);
+        a.sin_family = AF_INET;
+        a.sin_addr.s_addr = htonl(INADDR_LOOPBACK);
+        a.sin_port = htons((uint16_t)port);
+        if (::connect(fd, (struct sockaddr *)&a, sizeof a) != 0) { ::close(fd); return -1; }
+        int one = 1;
+        ::setsockopt(fd, IPPROTO_TCP, TCP_NODELAY, &one, sizeof one);
+        ::setsockopt(fd, IPPROTO_TCP, TCP_QUICKACK, &one, sizeof one);
+        return fd;
+    }
+
+    void drain(SvcClient &c) {
+        if (c.fd < 0) return;
+        char b[4096];
+        for (;;) {
+            ssize_t n = ::recv(c.fd, b, sizeof b, MSG_DONTWAIT);
+            if (n > 0) {
+                if (c.rx.size() < (1u << 20)) c.rx.append(b, (size_t)n);
+                int one = 1;
+                if (port_t >= 0) ::setsockopt(c.fd, IPPROTO_TCP, TCP_QUICKACK, &one, sizeof one);
+                continue;
+            }
+            if (n == 0) c.eof = true;
+            else if (errno == ECONNRESET || errno == EPIPE) { c.reset = true; c.eof = true; }
+            break;
+        }
+    }
+
+    //! one loop pass; an exception that leaves the loop is the violation this leg exists for
+    void pass() {
+        if (aborted) return;
+        runner.tick();
+        if (runner.dead) {
+            std::string hist;
+            bool by_exit = false, by_node = false;
+            for (auto &c : clients) if (c.passes_since_end >= 0 && c.passes_since_end <= 2) {
+                hist += " [" + c.script + " | passes since ending write: " + std::to_string(c.passes_since_end) + "]";
+                (c.ending == 1 ? by_exit : by_node) = true;
+            }
+            // which kind of session was being torn down: keeps unrelated root causes under different keys
+            const char *cls = by_exit && by_node ? "exit-and-command-node-sessions" : by_node ? "command-node-session" : by_exit ? "exit-session" : "no-ending-session";
+            vh::viol("service/uncaught-exception/" + runner.ex_name + "@runLoop/tearing-down-" + cls,
+                     vh::fmt("what='%s'; sessions that ended within the last passes:%s", runner.ex_what.c_str(), hist.substr(0, 1500).c_str()));
+            aborted = true;
+            return;
+        }
+        vh::counter("service_loop_passes");
+        if (vh::st().args.verbose) fprintf(stderr, "-- pass\n");
+        for (auto &c : clients) {
+            if (c.wait > 0 && --c.wait == 0) c.due = true;
+            if (c.passes_since_end >= 0) ++c.passes_since_end;
+            drain(c);
+        }
+    }
+
+    void add(SvcClient &c, SvcStep::Kind k, const std::string &b, int passes, bool is_end, bool is_after) {
+        SvcStep st; st.kind = k; st.bytes = b; st.passes = passes; st.is_end = is_end; st.is_after = is_after;
+        c.steps.push_back(st);
+    }
+
+    std::string after_bytes(bool telnet) {
+        unsigned w = (unsigned)rng.below(telnet ? 12 : 8);
+        switch (w) {
+            case 0: return "ls\r\n";
+            case 1: return "x";
+            case 2: return "\r\n";
+            case 3: return "/p 5\r\n";
+            case 4: return "exit\r\n";
+            case 5: return "\n";
+            case 6: return "tree\r\nhistory\r\n";
+            case 7: return std::string(1 + rng.below(40), 'z');
+            case 8: return std::string("\xff\xfd\x01");                 // DO ECHO   -> onRecvNego looks the session up
+            case 9: return std::string("\xff\xf1");                     // NOP       -> onRecvCmd
+            case 10: return std::string("\xff\xfa\x1f\x00\x50\x00\x18\xff\xf0", 9);   // SB NAWS -> onRecvSub looks the session up
+            default: return std::string("\xff");                        // incomplete command
+        }
+    }
+
+    void gen(SvcClient &c) {
+        c.telnet = rng.chance(1, 2);
+        c.script = c.telnet ? "telnet:" : "tcprpc:";
+        if (c.telnet && rng.chance(1, 3)) { add(c, SvcStep::WRITE, std::string("\xff\xfd\x01"), 0, false, false); c.script += " <DO ECHO>"; }
+        size_t pre = rng.below(3);
+        for (size_t i = 0; i < pre; ++i) {
+            std::string n = std::to_string(++serial);
+            std::string path = rng.pick(kProbePaths);
+            add(c, SvcStep::WRITE, path + " " + n + (rng.chance(1, 2) ? "\r\n" : "\n"), 0, false, false);
+            Args a; a.push_back(path); a.push_back(n);
+            c.expect.push_back(a);
+            c.script += " '" + path + " " + n + "'";
+            if (rng.chance(1, 2)) add(c, SvcStep::WAIT, "", 1 + (int)rng.below(2), false, false);
+        }
+        unsigned kind = (unsigned)rng.below(10);
+        if (kind == 0) { c.ending = 0; c.script += " (bystander)"; vh::counter("service_bystander_sessions"); return; }
+        c.ending = kind <= 6 ? 1 : 2;
+        // a third of the cases end sessions by exit only, a third by the command node only: keeps the two teardown paths apart
+        if (case_idx % 3 == 1) c.ending = 1;
+        if (case_idx % 3 == 2) c.ending = 2;
+        static const char *exits[] = {"exit\r\n", "quit\r\n", "exit\n", "", "exit now\r\n", " exit\r\n"};      // [3] is CR NUL, built below
+        static const char *byes[] = {"/bye\r\n", "bye\n", "/bye x y\r\n"};
+        std::string e;
+        if (c.ending == 1) { unsigned k = (unsigned)rng.below(6); e = k == 3 ? std::string("exit\r\0", 6) : std::string(exits[k]); }
+        else e = rng.pick(byes);
+        c.script += " END'" + esc(e) + "'";
+        // what follows, and how many loop passes later
+        unsigned gap = (unsigned)rng.below(10);      // 0: same write, 1: separate write / no pass, 2-6: one pass, 7-8: two, 9: three
+        int passes = gap <= 1 ? 0 : gap <= 6 ? 1 : gap <= 8 ? 2 : 3;
+        unsigned after = (unsigned)rng.below(10);   // 0-4 more bytes, 5-6 close, 7 half-close, 8 RST, 9 nothing
+        if (after <= 4 && gap == 0) {
+            std::string more = after_bytes(c.telnet);
+            add(c, SvcStep::WRITE, e + more, 0, true, false);
+            c.script += "+'" + esc(more) + "' in the same write";
+            vh::counter("service_end_with_more_bytes_in_same_write");
+        } else {
+            add(c, SvcStep::WRITE, e, 0, true, false);
+        }
+        if (passes > 0) add(c, SvcStep::WAIT, "", passes, false, true);
+        c.script += vh::fmt(" then after %d pass(es):", passes);
+        if (after <= 4) {
+            size_t n = rng.chance(1, 3) ? 1 + rng.below(5) : 1;
+            for (size_t i = 0; i < n; ++i) {
+                std::string more = (n > 1 && rng.chance(1, 2)) ? std::string(1, (char)rng.range(0x20, 0x7e)) : after_bytes(c.telnet);
+                add(c, SvcStep::WRITE, more, 0, false, true);
+                c.script += " '" + esc(more) + "'";
+                if (i + 1 < n) add(c, SvcStep::WAIT, "", (int)rng.below(2), false, true);
+            }
+            if (rng.chance(1, 3)) { add(c, SvcStep::WAIT, "", (int)rng.below(3), false, true); add(c, SvcStep::CLOSE, "", 0, false, true); c.script += " close"; }
+        } else if (after <= 6) { add(c, SvcStep::CLOSE, "", 0, false, true); c.script += " close"; }
+        else if (after == 7) { add(c, SvcStep::SHUT_WR, "", 0, false, true); c.script += " half-close"; }
+        else if (after == 8) { add(c, SvcStep::RST, "", 0, false, true); c.script += " RST"; }
+        else c.script += " nothing";
+    }
+
+    //! one scripted action; a WAIT that follows it is armed at once, so the number of passes is counted from the action itself
+    void do_step(SvcClient &c) {
+        do_one(c);
+        while (!c.done() && c.steps[c.next].kind == SvcStep::WAIT) do_one(c);
+    }
+
+    void do_one(SvcClient &c) {
+        SvcStep &st = c.steps[c.next++];
+        if (vh::st().args.verbose) fprintf(stderr, "c%zu %s kind=%d \"%s\" passes=%d since_end=%d\n", (size_t)(&c - &clients[0]), c.telnet ? "telnet" : "rpc", (int)st.kind, esc(st.bytes).c_str(), st.passes, c.passes_since_end);
+        bool first_after = st.is_after && st.kind != SvcStep::WAIT && !c.first_after_done;
+        const char *what = nullptr;
+        switch (st.kind) {
+            case SvcStep::WAIT: c.wait += st.passes; return;
+            case SvcStep::WRITE: {
+                if (c.fd < 0) return;
+                ssize_t n = ::send(c.fd, st.bytes.data(), st.bytes.size(), MSG_NOSIGNAL | MSG_DONTWAIT);
+                (void)n;        // a refused write after the server's disconnect is part of the history, not an error
+                sig.add(st.bytes);
+                vh::counter("service_writes");
+                if (st.is_end) {
+                    c.passes_since_end = 0;
+                    vh::counter(c.ending == 1 ? "service_sessions_sent_exit" : "service_sessions_sent_node_command");
+                    vh::counter(c.telnet ? "service_endings_over_telnet" : "service_endings_over_tcprpc");
+                }
+                what = "more_bytes";
+                break;
+            }
+            case SvcStep::CLOSE: if (c.fd >= 0) { ::close(c.fd); c.fd = -1; } c.closed_by_us = true; what = "client_close"; break;
+            case SvcStep::SHUT_WR: if (c.fd >= 0) ::shutdown(c.fd, SHUT_WR); c.shut_wr = true; what = "client_half_close"; break;
+            case SvcStep::RST:
+                if (c.fd >= 0) {
+                    struct linger lg; lg.l_onoff = 1; lg.l_linger = 0;
+                    ::setsockopt(c.fd, SOL_SOCKET, SO_LINGER, &lg, sizeof lg);
+                    ::close(c.fd); c.fd = -1;
+                }
+                c.closed_by_us = true; what = "client_reset"; break;
+        }
+        if (first_after && what) {
+            c.first_after_done = true;
+            const char *when = c.passes_since_end == 0 ? "without_a_pass_between" : c.passes_since_end == 1 ? "in_next_pass" : "two_or_more_passes_later";
+            vh::counter(std::string(c.ending == 1 ? "sessions_ended_by_exit_then_" : "sessions_ended_by_command_node_then_") + what + "_" + when);
+        }
+    }
+
+    void run() {
+        if (!start()) { fprintf(stderr, "VH-FATAL: c13-service-start-failed\n"); abort(); }
+        runner.start(sh.loop);
+        size_t total = 8 + rng.below(17);
+        size_t started = 0;
+        clients.reserve(total + 2);
+        size_t guard = 0;
+        for (;;) {
+            if (aborted || ++guard > 20000) break;
+            // what was scheduled for "exactly this many passes later" goes out now
+            for (size_t i = 0; i < clients.size(); ++i) {
+                SvcClient &c = clients[i];
+                if (!c.due) continue;
+                c.due = false;
+                if (!c.done() && c.wait == 0) do_step(c);
+            }
+            // keep up to 4 sessions connected
+            size_t live = 0;
+            for (auto &c : clients) if (c.fd >= 0 && !c.done()) ++live;
+            if (started < total && live < 4 && (live == 0 || rng.chance(1, 2))) {
+                clients.push_back(SvcClient());
+                SvcClient &c = clients.back();
+                gen(c);
+                c.fd = connect_to(c.telnet);
+                if (c.fd < 0) { fprintf(stderr, "VH-FATAL: c13-service-connect-failed errno=%d\n", errno); abort(); }
+                ++started;
+                log(vh::fmt("c%zu=%s;", clients.size() - 1, c.script.c_str()));
+                pass();         // accept (listen backlog is 1)
+                continue;
+            }
+            std::vector<size_t> ready;
+            bool pending = false;
+            for (size_t i = 0; i < clients.size(); ++i) {
+                SvcClient &c = clients[i];
+                if (c.done()) continue;
+                pending = true;
+                if (c.wait == 0) ready.push_back(i);
+            }
+            if (!pending && started >= total) break;
+            if (!ready.empty() && rng.chance(4, 5)) do_step(clients[rng.pick(ready)]);
+            else pass();
+        }
+        if (aborted) return;
+        for (int i = 0; i < 4; ++i) pass();
+        // every session that asked to end must have been disconnected by the server
+        for (int i = 0; i < 200 && !aborted; ++i) {
+            bool waiting = false;
+            for (auto &c : clients) if (c.ending != 0 && c.fd >= 0 && !c.eof) waiting = true;
+            if (!waiting) break;
+            pass();
+            if (port_t >= 0 && i >= 3) { struct timespec ts = {0, 10 * 1000 * 1000}; nanosleep(&ts, nullptr); vh::counter("tcp_settle_waits_10ms"); }
+        }
+        if (aborted) return;
+        for (size_t i = 0; i < clients.size(); ++i) {
+            SvcClient &c = clients[i];
+            std::string who = vh::fmt("session %zu: %s; reply stream tail \"%s\"", i, c.script.c_str(), esc(c.rx.size() > 160 ? c.rx.substr(c.rx.size() - 160) : c.rx).c_str());
+            std::vector<Args> got = parse_markers(c.rx);
+            bool prefix_ok = got.size() >= c.expect.size();
+            for (size_t k = 0; prefix_ok && k < c.expect.size(); ++k) if (got[k] != c.expect[k]) prefix_ok = false;
+            if (!prefix_ok && !(c.closed_by_us && c.ending != 0))
+                vh::viol("service/commands-before-the-ending-not-executed", who);
+            else if (!c.expect.empty()) vh::counter("service_probe_replies_checked", c.expect.size());
+            if (c.ending != 0 && c.fd >= 0) {
+                if (!c.eof) vh::viol(c.ending == 1 ? "service/exit/not-disconnected-by-server" : "service/command-node-endSession/not-disconnected-by-server", who);
+                else vh::counter(c.ending == 1 ? "service_exit_sessions_disconnected_by_server" : "sessions_ended_by_command_node");
+            }
+            if (c.ending == 0 && c.eof) vh::viol("service/bystander-disconnected", who);
+        }
+        // the sessions that never asked to end still work, and so do both front ends for a newcomer
+        for (int fe = 0; fe < 2; ++fe) {
+            clients.push_back(SvcClient());
+            SvcClient &c = clients.back();
+            c.telnet = fe == 0; c.ending = 0; c.script = c.telnet ? "telnet: (newcomer)" : "tcprpc: (newcomer)";
+            c.fd = connect_to(c.telnet);
+            if (c.fd < 0) { vh::viol("service/liveness/connect-refused", c.script); continue; }
+            pass();
+        }
+        if (aborted) return;
+        for (size_t i = 0; i < clients.size(); ++i) {
+            SvcClient &c = clients[i];
+            if (c.ending != 0 || c.fd < 0) continue;
+            std::string n = std::to_string(900000 + i);
+            std::string line = "/q " + n + "\r\n";
+            size_t before = parse_markers(c.rx).size();
+            if (::send(c.fd, line.data(), line.size(), MSG_NOSIGNAL | MSG_DONTWAIT) < 0) { vh::viol("service/bystander-write-failed", c.script); continue; }
+            Args want; want.push_back("/q"); want.push_back(n);
+            bool seen = false;
+            for (int k = 0; k < 200 && !aborted && !seen; ++k) {
+                pass();
+                std::vector<Args> got = parse_markers(c.rx);
+                seen = got.size() == before + 1 && got.back() == want;
+                if (!seen && port_t >= 0 && k >= 3) { struct timespec ts = {0, 10 * 1000 * 1000}; nanosleep(&ts, nullptr); }
+                if (!seen && port_t < 0 && k >= 6) break;
+            }
+            if (aborted) return;
+            if (!seen) vh::viol("service/other-session-stopped-working", vh::fmt("%s; reply stream tail \"%s\"", c.script.c_str(), esc(c.rx.size() > 160 ? c.rx.substr(c.rx.size() - 160) : c.rx).c_str()));
+            else vh::counter("service_other_sessions_still_working");
+        }
+        for (auto &c : clients) if (c.fd >= 0) { ::close(c.fd); c.fd = -1; }
+        for (int i = 0; i < 3; ++i) pass();
+        runner.shutdown();
+        vh::counter("service_sessions", total);
+        vh::counter("service_node_endSession_calls", node_end_calls);
+    }
+
+    ~ServiceWorld() {
+        for (auto &c : clients) if (c.fd >= 0) ::close(c.fd);
+        runner.shutdown();
+        if (aborted || runner.dead) {      // an exception went through the loop: callback-depth counters are off, destructors would assert. Leak.
+            sh.term = nullptr; sh.loop = nullptr;
+            if (!path_t.empty()) { ::unlink(path_t.c_str()); ::unlink(path_r.c_str()); }
+            return;
+        }
+        if (telnetd) { telnetd->stop(); telnetd->cleanup(); }
+        if (rpc) { rpc->stop(); rpc->cleanup(); }
+        try { sh.pump(2); } catch (...) {}
+        delete telnetd;
+        delete rpc;
+    }
+};
+
+void case_service(uint64_t idx, vh::Rng &rng) {
+    ServiceWorld w(rng, idx);
+    w.run();
+    vh::counter("probe_invocations_total", w.sh.probe_total);
+    vh::note_case(w.sig.h, !w.aborted);
+    if (vh::st().args.first == 0 && vh::want_sample(1) && !w.aborted)
+        vh::sample("{\"mode\":\"service\",\"sessions\":" + vh::jstr(w.desc.substr(0, 1500)) + "}", 1);
+}
+
 }  // namespace
 
 int main(int argc, char **argv) {
@@ -1582,6 +2065,7 @@ int main(int argc, char **argv) {
         else if (mode == "hostile") case_hostile(idx, rng);
         else if (mode == "telnet") case_tcp(idx, rng, true);
         else if (mode == "tcprpc") case_tcp(idx, rng, false);
+        else if (mode == "service") case_service(idx, rng);
         else { fprintf(stderr, "VH-FATAL: unknown-mode\n"); abort(); }
     });
 }
